@@ -7,6 +7,7 @@ import (
 	"strings"
 
 	exsrv "github.com/cybergarage/go-redis/examples/go-redisd/server"
+	"github.com/cybergarage/go-redis/redis/auth"
 	"github.com/cybergarage/go-redis/vrt"
 	"verif/fw"
 	"verif/resp"
@@ -28,7 +29,11 @@ type c07Offender struct {
 	Setup [][]string // run by the offender first (its own keys)
 	Bytes []byte     // then these raw bytes
 	End   string     // "close" | "reset" | "wait" (read until the server closes or goes quiet)
-	TLS   string     // offender on the TLS port: "junk" | "plain-text" | "untrusting" | "abort" (End is ignored)
+	TLS   string     // offender on the TLS port: "junk" | "plain-text" | "untrusting" | "abort" | "no-cert" | "wrong-name" | "self-signed" (End is ignored)
+	// Cfg != "": the application hands the server a ready tls.Config whose ClientAuth
+	// is weaker than the one the library builds ("request" = RequestClientCert, "any" =
+	// RequireAnyClientCert, "if-given" = VerifyClientCertIfGiven), plus a common-name rule
+	Cfg string
 }
 
 func c07Offenders() []c07Offender {
@@ -68,6 +73,14 @@ func c07Offenders() []c07Offender {
 		{Name: "tls-plain-text", TLS: "plain-text"},
 		{Name: "tls-untrusting-client", TLS: "untrusting"},
 		{Name: "tls-abort-after-hello", TLS: "abort"},
+		// the same port configured by the application with a tls.Config that does not insist on
+		// a (verified) certificate, and a common-name rule: a client without certificate, with
+		// the wrong name, with a self-made certificate - all complete the handshake
+		{Name: "tls-request-no-cert", TLS: "no-cert", Cfg: "request"},
+		{Name: "tls-request-wrong-name", TLS: "wrong-name", Cfg: "request"},
+		{Name: "tls-any-wrong-name", TLS: "wrong-name", Cfg: "any"},
+		{Name: "tls-if-given-no-cert", TLS: "no-cert", Cfg: "if-given"},
+		{Name: "tls-if-given-wrong-name", TLS: "wrong-name", Cfg: "if-given"},
 		{Name: "stops-reading-big-reply", Setup: [][]string{{"RPUSH", "ol", "aaaaaaaaaaaaaaaa", "bbbbbbbbbbbbbbbb"}}, Bytes: concat(cmd("LRANGE", "ol", "0", "-1"), cmd("LRANGE", "ol", "0", "-1")), End: "stall"},
 	}
 }
@@ -95,6 +108,11 @@ func (w *c07SchedWorld) body() {
 		ex.SetTLSCertFile(kit.ServerCert)
 		ex.SetTLSKeyFile(kit.ServerKey)
 		ex.SetTLSCaCertFile(kit.CAFile)
+		if w.off.Cfg != "" {
+			mode := map[string]tls.ClientAuthType{"request": tls.RequestClientCert, "any": tls.RequireAnyClientCert, "if-given": tls.VerifyClientCertIfGiven}[w.off.Cfg]
+			ex.SetTLSConfig(&tls.Config{MinVersion: tls.VersionTLS12, Certificates: []tls.Certificate{kit.ServerTLS}, ClientCAs: kit.Pool, ClientAuth: mode})
+			ex.AddAuthenticator(auth.NewCertificateAuthenticatorWith(auth.WithCommonName("localhost")))
+		}
 	}
 	if err := ex.Start(); err != nil {
 		w.viol = append(w.viol, "start-failed\x00"+err.Error())
@@ -123,6 +141,20 @@ func (w *c07SchedWorld) body() {
 			case "abort":
 				tc := tls.Client(&abortConn{Conn: raw}, kit.clientTLSConfig(kit.Clients["valid"]))
 				tc.Handshake()
+			case "no-cert", "wrong-name", "self-signed":
+				cred := map[string]string{"no-cert": "none", "wrong-name": "wrong-name", "self-signed": "self-signed"}[w.off.TLS]
+				tc := tls.Client(raw, kit.clientTLSConfig(kit.Clients[cred]))
+				if err := tc.Handshake(); err != nil {
+					w.offNotes = append(w.offNotes, "handshake: "+err.Error())
+					raw.ReadOrQuiet(buf)
+					return
+				}
+				r := sched.Wrap(tc, raw).Do("SET", "offender", "1")
+				w.offNotes = append(w.offNotes, "SET: "+r.String())
+				if r.Status == "ok" && !r.Reply.IsError() {
+					w.viol = append(w.viol, "offender-served\x00a TLS client whose certificate does not satisfy the common-name rule ("+w.off.TLS+", ClientAuth "+w.off.Cfg+") got its command executed: "+r.String())
+				}
+				raw.ReadOrQuiet(buf)
 			}
 		})
 	}
